@@ -283,7 +283,7 @@ def parse_kani(out):
         r["checks"] = int(m.group(2))
     # per-check blocks
     for blk in re.split(r"\n(?=Check \d+: )", out):
-        m = re.match(r"Check \d+: (\S+)\n\s+- Status: (\S+)\n\s+- Description: \"(.*)\"\n(?:\s+- Location: (.*))?", blk)
+        m = re.match(r"Check \d+: (.+)\n\s+- Status: (\S+)\n\s+- Description: \"(.*)\"\n(?:\s+- Location: (.*))?", blk)
         if not m:
             continue
         name, status, desc, loc = m.group(1), m.group(2), m.group(3).strip('"'), (m.group(4) or "").strip()
@@ -325,7 +325,7 @@ def classify(ob, res):
     if res["verdict"] is None:
         why = "timeout" if "TIMEOUT after" in out else "no verdict (tool crash, out of memory or compile error)"
         return "undecided", {"why": why, "tail": "\n".join(out.splitlines()[-25:])}
-    if "Out of memory" in out or "CBMC failed with status" in out:
+    if "out of memory" in out.lower() or "CBMC failed with status" in out:
         return "undecided", {"why": "CBMC ran out of memory or crashed", "tail": "\n".join(out.splitlines()[-12:])}
     prop_fail = [f for f in res["failed"] if PROP_ASSERT_RE.match(f["desc"])]
     other_fail = [f for f in res["failed"] if not PROP_ASSERT_RE.match(f["desc"])]
